@@ -272,6 +272,16 @@ JudgeUids(post, i) ==
 ----------------------------------------------------------------------------
 (* 4. Collection tags: C08                                                  *)
 
+\* C08: a request that is not answered with success leaves every collection tag alone
+JudgeTagFrame(ev, pre, post, i) ==
+    IF Reported(ev) \/ ~IsWrite(ev) THEN {}
+    ELSE UNION { IF pre.colls[c].tagged /\ pre.colls[c].kind # "broken" /\ post.colls[c].kind # "broken"
+                    /\ TagOf(pre, c) # TagOf(post, c)
+                   THEN Viol("C08", [w |-> "tag-changed-by-a-failed-request", c |-> c, op |-> ev.op,
+                                     cls |-> ev.resp.cls, st |-> ev.resp.status], i)
+                   ELSE {}
+                 : c \in Colls(pre) \cap Colls(post) }
+
 JudgeTags(post, i) ==
     UNION {
       LET co == post.colls[c]  t == TagOf(post, c)  m == XMap(post, c) IN
@@ -434,7 +444,7 @@ INSTANCE DavDeviations
 Judge(ev, pre, post, i) ==
     LET raw == JudgeEffect(ev, pre, post, i) \cup JudgeFrame(ev, pre, post, i)
                \cup JudgeListing(post, i) \cup JudgeEtags(ev, post, i) \cup JudgeUids(post, i)
-               \cup JudgeTags(post, i) \cup JudgeGit(ev, pre, post, i) \cup JudgeSync(post, i)
+               \cup JudgeTags(post, i) \cup JudgeTagFrame(ev, pre, post, i) \cup JudgeGit(ev, pre, post, i) \cup JudgeSync(post, i)
                \cup JudgeMultiget(ev, post, i) \cup JudgeGet(ev, pre, i)
                \cup JudgeReupload(ev, pre, post, i)
     IN  \* a violation that a listed deviation explains exactly becomes a known finding
